@@ -9,8 +9,8 @@ open TruthModel.C18
 #print axioms label_args_use_recorded
 #print axioms written_layout
 #print axioms encodeLabels_no_panic
-#print axioms second_pass_panics
-#print axioms index20_assert_fires
+#print axioms second_pass_reports
+#print axioms index20_no_assert
 #print axioms dummy_float_local_panics
 #print axioms resolveLocals_no_loc
 #print axioms real_ok_of_dummy_ok
